@@ -260,8 +260,8 @@ func runCase(w *lib.Writer, in input, g *Generated, lays []Layout) {
 		}
 		// a chunk made by loadstring and called from Lua code is a main chunk
 		for _, id := range gg.loaded {
-			if fi, ok := res.Info[[2]int{id, 1}]; !ok || fi.What != "main" || fi.LineDefined != 0 || fi.LastLine != 0 || fi.Cur != 1 {
-				fail(fmt.Sprintf("point %d runs in a loadstring chunk: getinfo(1) gives %+v (expected what=main, lines 0/0, currentline 1)", id, fi))
+			if fi, ok := res.Info[[2]int{id, 1}]; !ok || fi.What != "main" || fi.LineDefined != 0 || fi.LastLine != 0 || fi.Cur != gg.loadedLine[id] {
+				fail(fmt.Sprintf("point %d runs in a loadstring chunk: getinfo(1) gives %+v (expected what=main, lines 0/0, currentline %d)", id, fi, gg.loadedLine[id]))
 			}
 		}
 		// what: "main" exactly for the levels that are a main chunk
